@@ -253,7 +253,7 @@ META = {
 
 
 def plan(tier):
-    n1, n2 = (6, 4) if tier == "quick" else (7, 5)
+    n1, n2 = (6, 4) if tier == "quick" else (7, 4)
     return [
         Scenario("pairs", scen, params={"N": n1, "mode": "pairs"}, cover=["legal-text", "valued-word", "two-words"],
                  bounds={"free characters": n1}),
